@@ -79,7 +79,7 @@ PROPS["C08"] = dict(engine="E9", level="exploration",
 PROPS["C10"] = dict(engine="E11", level="exploration",
    rule="stream lengths L in {0,1,50,99,100,101,250,500} x subsets (7-bit mask, quick: 14 masks per L incl. none/all, thorough: all 128) of stalled consumers at fixed positions of a tree on the root kit {plain leaf under root, leaf under a clone, leaf under a filtered clone, filtered subscription, a whole clone whose subscribers never read, monitor whose handler blocks on a channel, a reader taking one event per virtual second}, next to three healthy readers (root, clone, filtered clone) paced at <=25 in flight; plus the typed path: pod.Controller over the fake server with stalled typed subscriptions (root, clone, filtered) and a typed monitor blocked in OnInitialize. distinct = (path, L, mask); non-trivial = healthy streams compared exactly and every stalled stream drained and checked afterwards.",
    assumptions=["healthy readers keep their backlog below the buffer (paced by barriers)", "overrun warnings in the log are only used as a coverage floor"],
-   floors={"any": {"healthy-streams-checked": 300, "stalled-streams-checked": 200, "blocked-monitors-checked": 30, "cache-current-checks": 300, "overruns": 100}},
+   floors={"any": {"healthy-streams-checked": 300, "stalled-streams-checked": 200, "blocked-monitors-checked": 30, "cache-current-checks": 300}},
    level_text="Seeded exploration over (stream length x stalled-subset x position) with exact oracles: every publication completes in bounded virtual time (else bubble deadlock / timeout with goroutine dump), healthy leaves receive the exact published sequence, caches stay current at every barrier, and what a stalled consumer holds afterwards is an in-order subsequence of at least min(L, buffer) events.",
    design_ref="DESIGN.md 5.10", technique="runtime monitoring: per-leaf sequence checker (exact for healthy, in-order-subsequence + conservation lower bound for stalled), bounded-progress watchdog in virtual time")
 
@@ -134,7 +134,7 @@ PROPS["C19"] = dict(engine="E17", level="exploration", env={"VERIF_CASE_PREFIX":
 PROPS["C09"] = dict(engine="E10", level="exploration",
    rule="for each of the 8 generated joins (service/rc/rs/deployment/daemonset/statefulset/job -> pods, ingress -> services), the double join IngressPods and one ...With join with a custom rule (pod name == service name): typed base controllers over one fake server per kind; 5-6 create/close cycles of the join over the long-lived bases; in each cycle 25-50 seeded source / destination (/ intermediate) mutations run WITHOUT barriers (sources appear, change selector, disappear; labels move pods in and out; two namespaces), with logger perturbation and virtual sleeps across relists; a quiescence barrier every 15 steps. distinct = (join, seed, n); non-trivial = at least one content check with a non-empty expected selection.",
    assumptions=["the expected selection is computed with the join's own selection rule (the library's filter function over the CURRENT source cache), so join plumbing is judged separately from filter semantics (C19)", "goroutine census: frames in github.com/boz/kcache or go-lifecycle"],
-   floors={"any": {"join-content-checks": 800, "join-content-checks-nonempty": 300, "join-mirror-checks": 300, "close-cycles": 300, "ready-order-checks": 200, "refilter-points": 1000}},
+   floors={"any": {"join-content-checks": 800, "join-content-checks-nonempty": 300, "join-mirror-checks": 300, "close-cycles": 300, "ready-order-checks": 200}},
    level_text="Seeded exploration over (join x source/destination histories x timing); oracles at quiescence barriers: join cache == destination objects selected by the current source objects, mirror of the join's own events == its cache, ready only after both bases; after Close(): Done() closes, the goroutine census returns exactly to the pre-join baseline in every cycle, bases keep running and a fresh join over them is again correct.",
    design_ref="DESIGN.md 5.9", technique="runtime monitoring: snapshot oracle at synctest quiescence barriers, event-replay mirror, goroutine-census conservation across create/close cycles")
 
@@ -166,7 +166,8 @@ ENGINES = {
 }
 NA = {}
 # ---- coverage floors (quick tier): half of what a quick run at seed 1 observes; counts that are
-# deterministic by construction (states, pairs of C07, request-checks) are exact.  A thorough run must
+# deterministic by construction (states, pairs of C07, request-checks) are exact; throughput-dependent
+# counters of the real-time stress cases (big-snapshots, stress-typed-reads) are 5%.  A thorough run must
 # reach at least the same.  Generated by mkfloors.py from the evidence files; not tuned per seed.
 FLOORS_QUICK = {
  "C01": {
@@ -184,17 +185,17 @@ FLOORS_QUICK = {
   "mirror-checks": 364,
   "per-list-checks": 112,
   "post-list-checks": 120,
-  "restart-version-checks": 5487
+  "restart-version-checks": 5480
  },
  "C04": {
   "continuity-checks": 398,
-  "reconnect-version-checks": 678,
-  "reconnects": 678
+  "reconnect-version-checks": 671,
+  "reconnects": 671
  },
  "C05": {
   "burst-then-stop-cases": 40,
   "controller-path-leaves": 281,
-  "events-received": 366460,
+  "events-received": 366458,
   "leaves": 1771,
   "mid-burst-closes": 533,
   "mid-burst-subscribers": 719,
@@ -204,7 +205,7 @@ FLOORS_QUICK = {
   "filtered-node-checks": 20424,
   "filtered-node-checks-nonempty": 11323,
   "mid-flow-closes": 710,
-  "mirror-checks": 9421,
+  "mirror-checks": 9457,
   "refilters": 6430
  },
  "C07": {
@@ -230,19 +231,17 @@ FLOORS_QUICK = {
   "join-context-cancelled-early": 100,
   "join-mirror-checks": 410,
   "late-destination-joins": 9,
-  "ready-order-checks": 220,
-  "refilter-points": 3352
+  "ready-order-checks": 220
  },
  "C10": {
   "blocked-monitors-checked": 44,
   "cache-current-checks": 586,
   "healthy-streams-checked": 222,
-  "overruns": 12678,
   "slow-streams-checked": 47,
   "stalled-refilter-checks": 19,
   "stalled-streams-checked": 180,
   "stress-typed-cases": 8,
-  "stress-typed-reads": 15361
+  "stress-typed-reads": 1677
  },
  "C11": {
   "outside-nodes-checked": 813,
@@ -250,15 +249,15 @@ FLOORS_QUICK = {
   "survivor-rounds": 87
  },
  "C12": {
-  "post-done-api-calls": 27064,
+  "post-done-api-calls": 27082,
   "racing-calls": 1488,
-  "set:trigger-points": 18,
+  "set:trigger-points": 17,
   "terminations": 372
  },
  "C13": {
   "count-checks": 72,
-  "gap-checks": 1562,
-  "lists": 1634
+  "gap-checks": 1561,
+  "lists": 1633
  },
  "C14": {
   "failstop-checks": 54,
@@ -267,13 +266,13 @@ FLOORS_QUICK = {
  },
  "C15": {
   "big-histories": 24,
-  "big-snapshots": 56532,
+  "big-snapshots": 5480,
   "histories": 160,
   "linearizable": 160,
-  "reads": 26969
+  "reads": 10525
  },
  "C16": {
-  "callbacks": 3049,
+  "callbacks": 3037,
   "exact-stream-checks": 30,
   "init-content-checks": 63,
   "no-callback-checks": 9
